@@ -54,6 +54,50 @@ Definition strip_bom (s : bytes) : bytes :=
   | _ => let '(r, n) := decode_rune s in if r =? BOM then skipn n s else s
   end.
 
+(* -- the same, read through bufio.Reader from a source that delivers the input in pieces -- *)
+(* utf8.FullRune: first[p[0]]&7 is the sequence length a lead byte announces (1 for ASCII and
+   for invalid lead bytes); acceptRanges gives the bounds of the second byte. *)
+Definition lead_size (b : byte) : nat :=
+  let x := b2n b in
+  if x <? 194 then 1 else if x <? 224 then 2 else if x <? 240 then 3 else if x <? 245 then 4 else 1.
+Definition accept_lo (b : byte) : N :=
+  let x := b2n b in if x =? 224 then 160 else if x =? 240 then 144 else 128.
+Definition accept_hi (b : byte) : N :=
+  let x := b2n b in if x =? 237 then 159 else if x =? 244 then 143 else 191.
+Definition full_rune (p : bytes) : bool :=
+  match p with
+  | [] => false
+  | b0 :: r =>
+      if Nat.leb (lead_size b0) (List.length p) then true
+      else match r with
+           | [] => false
+           | b1 :: r2 =>
+               if negb (in_range (accept_lo b0) (accept_hi b0) b1) then true
+               else match r2 with
+                    | [] => false
+                    | b2 :: _ => negb (in_range 128 191 b2)
+                    end
+           end
+  end.
+
+(* bufio.Reader.ReadRune's loop: fill() (one Read of the source = the next piece) while fewer
+   than utf8.UTFMax bytes are buffered, they are not a full rune, and the source has more. *)
+Fixpoint fill_until (buf : bytes) (pieces : list bytes) : bytes * list bytes :=
+  match pieces with
+  | [] => (buf, [])
+  | c :: rest =>
+      if Nat.leb 4 (List.length buf) || full_rune buf then (buf, pieces) else fill_until (buf ++ c) rest
+  end.
+
+(* StripBOM over a source delivering [pieces]: what the returned reader yields in total. *)
+Definition strip_bom_pieces (pieces : list bytes) : bytes :=
+  let '(buf, rest) := fill_until [] pieces in
+  match buf with
+  | [] => List.concat rest
+  | _ => let '(r, n) := decode_rune buf in
+         if r =? BOM then skipn n buf ++ List.concat rest else buf ++ List.concat rest
+  end.
+
 (* ---- header.go WrapEncoding + schema.go NewTransform -------------------------------------- *)
 Fixpoint assoc (l : list (string * decoder_id)) (k : string) : option decoder_id :=
   match l with
